@@ -14,6 +14,7 @@ import (
 func StreamBatch(stream <-chan *gdbi.GraphElement, batchSize int, graph string, vertexAdd func([]*gdbi.Vertex) error, edgeAdd func([]*gdbi.Edge) error) error {
 
 	var bulkErr *multierror.Error
+	errLock := &sync.Mutex{} // bulkErr is appended to by both writer goroutines and the loop below
 	vertCount := 0
 	edgeCount := 0
 	vertexBatchChan := make(chan []*gdbi.Vertex)
@@ -26,7 +27,9 @@ func StreamBatch(stream <-chan *gdbi.GraphElement, batchSize int, graph string, 
 			if len(vBatch) > 0 {
 				err := vertexAdd(vBatch)
 				if err != nil {
+					errLock.Lock()
 					bulkErr = multierror.Append(bulkErr, err)
+					errLock.Unlock()
 				}
 			}
 		}
@@ -39,7 +42,9 @@ func StreamBatch(stream <-chan *gdbi.GraphElement, batchSize int, graph string, 
 			if len(eBatch) > 0 {
 				err := edgeAdd(eBatch)
 				if err != nil {
+					errLock.Lock()
 					bulkErr = multierror.Append(bulkErr, err)
+					errLock.Unlock()
 				}
 			}
 		}
@@ -51,10 +56,12 @@ func StreamBatch(stream <-chan *gdbi.GraphElement, batchSize int, graph string, 
 
 	for element := range stream {
 		if element.Graph != graph {
+			errLock.Lock()
 			bulkErr = multierror.Append(
 				bulkErr,
 				fmt.Errorf("unexpected graph reference: %s != %s", element.Graph, graph),
 			)
+			errLock.Unlock()
 		} else if element.Vertex != nil {
 			if len(vertexBatch) >= batchSize {
 				vertexBatchChan <- vertexBatch
@@ -63,10 +70,12 @@ func StreamBatch(stream <-chan *gdbi.GraphElement, batchSize int, graph string, 
 			vertex := element.Vertex
 			err := vertex.Validate()
 			if err != nil {
+				errLock.Lock()
 				bulkErr = multierror.Append(
 					bulkErr,
 					fmt.Errorf("vertex validation failed: %v", err),
 				)
+				errLock.Unlock()
 			} else {
 				vertexBatch = append(vertexBatch, vertex)
 				vertCount++
@@ -82,10 +91,12 @@ func StreamBatch(stream <-chan *gdbi.GraphElement, batchSize int, graph string, 
 			}
 			err := edge.Validate()
 			if err != nil {
+				errLock.Lock()
 				bulkErr = multierror.Append(
 					bulkErr,
 					fmt.Errorf("edge validation failed: %v", err),
 				)
+				errLock.Unlock()
 			} else {
 				edgeBatch = append(edgeBatch, edge)
 				edgeCount++
